@@ -85,6 +85,10 @@ Theorem C13_sqerr_kernel : forall f o : Q, gen_c13_sqerr (XFin f) (XFin o) =x= X
 Proof. exact sqerr_spec. Qed.
 Print Assumptions C13_sqerr_kernel.
 
+Theorem C13_sqerr_spec_kernel_agrees : forall f o : xv, sqerr_spec_x f o =x= gen_c13_sqerr f o.
+Proof. exact sqerr_spec_x_ok. Qed.
+Print Assumptions C13_sqerr_spec_kernel_agrees.
+
 (* every output cell of the MSE model is the NaN-skipping mean, over the reduced dimensions, of
    weight * squared error *)
 Theorem C13_mse_is_mean_of_squared_error : forall f o rd pd w r e,
